@@ -37,6 +37,7 @@ struct Obs {
     int its = -1;
     double rho = 0;
     std::vector<double> norms; // residual history of the (last) solve
+    double my_e2 = -1, my_einf = -1;
     bool has_err = false;
     double e2 = 0, einf = 0;
     uint64_t sol_hash = 0;
@@ -135,6 +136,21 @@ Obs run_api_once(const Value& plan, const SolverOpts& o, int poison, Result& r)
             ob.e2      = *a;
             ob.einf    = *b;
         }
+        if (ob.has_err && keep.exact) {
+            // the harness's own evaluation of the returned solution against the exact one
+            const PolarGrid& g = s->grid();
+            long double s2     = 0;
+            double mx          = 0;
+            for (int i = 0; i < g.nr(); i++)
+                for (int j = 0; j < g.ntheta(); j++) {
+                    double ue = keep.exact->exact_solution(g.radius(i), g.theta(j), std::sin(g.theta(j)), std::cos(g.theta(j)));
+                    double d  = s->solution()[g.index(i, j)] - ue;
+                    s2 += (long double)d * d;
+                    mx = std::max(mx, std::fabs(d));
+                }
+            ob.my_e2   = std::sqrt((double)s2) / std::sqrt((double)g.numberOfNodes());
+            ob.my_einf = mx;
+        }
         ob.sol_hash = hash_vec(s->solution());
         ob.finite   = all_finite(s->solution());
         ob.nr       = s->grid().nr();
@@ -194,6 +210,14 @@ void run_api(const Value& plan, Result& r)
             r.fail("C20.solution_not_finite", r.signature);
         if (c01 && !std::isfinite(a.rho))
             r.fail("C20.reduction_factor_not_finite", fmt("rho=%g its=%d; %s", a.rho, a.its, r.signature.c_str()));
+        // error figures of a solve that stopped by tolerance describe the returned solution
+        if (a.has_err && a.my_e2 >= 0 && a.its < o.max_iterations && a.finite && std::isfinite(a.my_e2)) {
+            r.probe("error_figures_checked");
+            if (std::fabs(a.e2 - a.my_e2) > 1e-9 * a.my_e2 + 1e-300 || std::fabs(a.einf - a.my_einf) > 1e-9 * a.my_einf + 1e-300)
+                r.fail("C20.error_figures_do_not_describe_the_returned_solution",
+                       fmt("exactError (%.12e, %.12e) vs solution()-exact (%.12e, %.12e); %s", a.e2, a.einf, a.my_e2, a.my_einf,
+                           r.signature.c_str()));
+        }
         // the mean reduction factor is the function of the residual history the documentation states, whichever
         // tolerance is enabled: (last / first)^(1 / iterations)
         if (a.its > 0 && a.norms.size() >= 2 && a.norms.front() > 0 && std::isfinite(a.norms.front()) &&
